@@ -88,7 +88,7 @@ PROPS = {
     },
     'C05': {
         'level': 'proof',
-        'units': ['stack', 'ops_field', 'ops_stack', 'ops_u32', 'ops_sys', 'masm_instr'],
+        'units': ['stack', 'ops_field', 'ops_stack', 'ops_u32', 'ops_sys', 'masm_instr', 'masm_instr_u32', 'masm_instr_stack'],
         'kani': [],
         'trusted_base': [T_FELT, T_TOOLS, 'T9 tools/mastdump prints the MAST built by /repo\'s assembler; lib/e2gen.py transcribes it (unit masm_instr: instruction -> operations)'],
         'not_decided': ['instructions without a lemma in masm_specs/instr_*.py (see the unit detail for the covered list)', 'text->AST parser (assembly/src/ast/parsers): string handling outside both verifiers'],
